@@ -389,12 +389,13 @@ pub fn work(spec: &Value, w: &mut WorkerCtx)
 
 /// (description, program in several declaration orders, expected codes: Some([]) accept,
 /// Some([c]) reject with c, None unspecified)
-fn legality_cells() -> Vec<(String, Vec<String>, Option<Vec<u16>>)>
+pub fn legality_cells() -> Vec<(String, Vec<String>, Option<Vec<u16>>)>
 {
 	let mut out = Vec::new();
-	let helpers = "struct S\n{\n\ta: i32,\n}\nword32 W\n{\n\ta: i32,\n}\n";
+	let helpers = "struct S\n{\n\ta: i32,\n}\nword32 W\n{\n\ta: i32,\n}\nstruct O;\n";
 	let main = "fn main()\n{\n}\n";
 	let types: Vec<&str> = vec![
+		"O", "&O", "[3]O", "[]O",
 		"i8", "i32", "u64", "u128", "usize", "bool", "char8", "void", "S", "W", "&i32", "&&i32", "&S", "&[]i32", "&[3]i32", "[3]i32", "[0]i32", "[]i32", "[:]i32", "[..]i32", "[3][2]i32",
 		"[3]&i32", "[3]S", "[3]W", "[][]i32", "[3][]u8", "[3]void", "&void", "(i32)", "([]i32)", "&[..]u8", "[N]i32",
 	];
@@ -423,6 +424,23 @@ fn legality_cells() -> Vec<(String, Vec<String>, Option<Vec<u16>>)>
 			];
 			out.push((format!("{t} as {pos}"), texts, expect));
 		}
+	}
+	// what a named array length may refer to: only a constant of type usize
+	let referents: [(&str, &str); 9] = [
+		("an earlier member of the same structure", "struct P\n{\n\tlen: usize,\n\tpayload: [len]u8,\n}\n"),
+		("a later member of the same structure", "struct P\n{\n\tpayload: [len]u8,\n\tlen: usize,\n}\n"),
+		("an earlier member of the same word", "word64 P\n{\n\tlen: u32,\n\tpayload: [len]u8,\n}\n"),
+		("an earlier member, nested array", "struct P\n{\n\tlen: usize,\n\tpayload: [2][len]u8,\n}\n"),
+		("a parameter", "fn f(n: usize, a: &[n]i32)\n{\n}\n"),
+		("a local variable", "fn f()\n{\n\tvar n: usize = 2;\n\tvar a: [n]i32;\n}\n"),
+		("a function", "fn g()\n{\n}\nfn f()\n{\n\tvar a: [g]i32;\n}\n"),
+		("a structure", "fn f()\n{\n\tvar a: [S]i32;\n}\n"),
+		("an undefined name", "struct P\n{\n\tpayload: [nowhere]u8,\n}\n"),
+	];
+	for (what, decl) in referents
+	{
+		let texts = vec![format!("{n_const}{helpers}{decl}{main}"), format!("{decl}{main}{helpers}{n_const}"), format!("{main}{helpers}{n_const}{decl}")];
+		out.push((format!("[name]T whose length names {what}"), texts, Some(vec![433, 402, 500, 405])));
 	}
 	out
 }
